@@ -645,6 +645,22 @@ def judge(history, run, ctx, st=None):
             if st:
                 st.evaluations += 1
                 st.count("persistence_judgements")
+            if (op[0] == "userfile" and not file_pending[0] and all(m in p2 and p2[m][0] == "ok" for m in ("Language", "DecimalSeparator") + DERIVED)
+                    and p2["DecimalSeparator"][1] in ("Auto", ",", ".")):
+                # the re-read derives the separators again: they must be the ones of the language IN USE and the decimal mark as they read
+                # back now (values set through the API win over the file for both), or -- where the application set the separators
+                # themselves -- the ones it set
+                new = (p2["DecimalSeparators"][1], p2["BlockSeparators"][1])
+                allowed = set(separator_pairs(language_in_use(p2), p2["DecimalSeparator"][1]))
+                if api_set & set(DERIVED):
+                    allowed.add((p["DecimalSeparators"][1], p["BlockSeparators"][1]))
+                if st:
+                    st.count("separator_derivations_judged_after_file_reread")
+                if new not in allowed:
+                    add("derived-separators", "after the user's prefs.yaml was re-read", i,
+                        "after the rewritten prefs.yaml was read: Language=%r LanguageAuto=%r DecimalSeparator=%r but DecimalSeparators/BlockSeparators = %r, expected %r" % (
+                            p2["Language"][1], p2.get("LanguageAuto", ("", ""))[1], p2["DecimalSeparator"][1], new, sorted(allowed)), True)
+                    break
             changed = unexplained(diff_p(p, p2), p2)
             if changed:
                 what = "set_mathml" if op[0] == "mathml" else "rewriting the user's prefs.yaml" if op[0] == "userfile" else op[1]
